@@ -146,10 +146,10 @@ theorem vstep_removeConsolidate (f : Forest) (prev next : Option Nat)
         | some ns => exact (vstep_setText_prefix f (hT p rfl) hp ns).trans (vstep_spliceOut _ n)
     · exact VStep.refl f
 
-theorem vstep_addConsolidate (f : Forest) (node : Nat) (prev next : Option Nat)
+theorem vstep_addConsolidateOld (f : Forest) (node : Nat) (prev next : Option Nat)
     (hTp : ∀ p, prev = some p → T p) (hTn : ∀ n, next = some n → T n) :
-    VStep S T f (f.addConsolidate node prev next).1 := by
-  unfold addConsolidate
+    VStep S T f (f.addConsolidateOld node prev next).1 := by
+  unfold addConsolidateOld
   split
   · exact VStep.refl f
   · cases f.textOf node with
@@ -174,6 +174,13 @@ theorem vstep_addConsolidate (f : Forest) (node : Nat) (prev next : Option Nat)
         | some ps => exact (vstep_setText_prefix f (hTp p rfl) hp added).trans (vstep_spliceOut _ node)
         | none => exact viaNext
       | none => exact viaNext
+
+/-- c33de0a: the neighbours that may change are the ones the helper works with (`selfPrev`,
+    `selfNext`: the node's own sibling where the neighbour handed in is the node itself). -/
+theorem vstep_addConsolidate (f : Forest) (node : Nat) (prev next : Option Nat)
+    (hTp : ∀ p, f.selfPrev node prev = some p → T p) (hTn : ∀ n, f.selfNext node next = some n → T n) :
+    VStep S T f (f.addConsolidate node prev next).1 := by
+  rw [addConsolidate_eq_old]; exact vstep_addConsolidateOld f node _ _ hTp hTn
 
 theorem vstep_res {f g : Forest} {b : Bool} {r1 r2 : Res} (h : VStep S T f g) :
     VStep S T f (if b = true then (g, r1) else (g, r2)).1 := by split <;> exact h
